@@ -94,6 +94,24 @@ func (w *World) Container(shardID int) vmcommon.BuiltInFunctionContainer {
 	return w.shards[shardID].container
 }
 
+// CopyAccountsFrom replaces the account states of every shard by deep copies of src's (same shard count required). Used
+// to give a freshly constructed world — fresh factory, container and function objects — the state of a running one.
+func (w *World) CopyAccountsFrom(src *World) bool {
+	if len(w.shards) != len(src.shards) {
+		return false
+	}
+	for i, sh := range src.shards {
+		m := make(map[string]*Account, len(sh.accounts.m))
+		for k, acc := range sh.accounts.m {
+			c := acc.clone()
+			c.tr = w.tr
+			m[k] = c
+		}
+		w.shards[i].accounts.m = m
+	}
+	return true
+}
+
 // LastCall returns the parsed result of the most recent call op (nil before the first one).
 func (w *World) LastCall() *CallResult { return w.last }
 
